@@ -1,3 +1,215 @@
-From Coq Require Import QArith.
-Example C03_placeholder : (1 + 1 == 2)%Q.
-Proof. reflexivity. Qed.
+(* PROPERTY C03: every KnotVector obtainable through the public API is non-decreasing, has its
+   first and last value repeated exactly degree+1 times, interior multiplicities at most
+   degree+1, length degree+npts+1 with npts > degree, and its span/mult/valid answers agree
+   with the element list; a request that would leave this set is rejected with an exception
+   and leaves the object unchanged.
+   Statements only; the proofs live in Proofs/KVProofs.v and Proofs/KVMachine.v. *)
+From Coq Require Import QArith Qabs List Bool Arith.
+From NurbsV Require Import Base.Res Base.QList Spec.KnotSpec Gen.Consts Model.KV Model.KVFacade.
+From NurbsV Require Import Proofs.KVProofs Proofs.KVMachine.
+Import ListNotations.
+Open Scope Q_scope.
+
+(* ---- 1. constructor ---- *)
+
+Theorem C03_valid_wf : forall v deg k, make v deg = Ok k -> WF (kvec k) (kdeg k).
+Proof. exact make_wf. Qed.
+Print Assumptions C03_valid_wf.
+
+Theorem C03_raw_rejects_nonnumeric : forall v deg,
+  all_some v = None -> make_raw v deg = Err ValueError.
+Proof. exact make_raw_nonnumeric. Qed.
+Print Assumptions C03_raw_rejects_nonnumeric.
+
+(* ---- 2. one step preserves the invariant ---- *)
+
+Theorem C03_step_wf : forall k o,
+  WF (kvec k) (kdeg k) -> WF (kvec (fst (kstep k o))) (kdeg (fst (kstep k o))).
+Proof. exact step_wf. Qed.
+Print Assumptions C03_step_wf.
+
+(* ---- 3. all histories ---- *)
+
+Theorem C03_reachable : forall ops k,
+  WF (kvec k) (kdeg k) ->
+  WF (kvec (fold_left (fun s o => fst (kstep s o)) ops k))
+     (kdeg (fold_left (fun s o => fst (kstep s o)) ops k)).
+Proof. exact reachable_wf. Qed.
+Print Assumptions C03_reachable.
+
+Theorem C03_reachable_from_make : forall v deg k ops,
+  make v deg = Ok k ->
+  WF (kvec (fold_left (fun s o => fst (kstep s o)) ops k))
+     (kdeg (fold_left (fun s o => fst (kstep s o)) ops k)).
+Proof. exact reachable_from_make. Qed.
+Print Assumptions C03_reachable_from_make.
+
+(* ---- 4. atomicity ---- *)
+
+Theorem C03_atomic : forall k o e, snd (kstep k o) = Err e -> fst (kstep k o) = k.
+Proof. exact step_atomic. Qed.
+Print Assumptions C03_atomic.
+
+Theorem C03_pure : forall k o, is_pure o = true -> fst (kstep k o) = k.
+Proof. exact step_pure. Qed.
+Print Assumptions C03_pure.
+
+(* ---- 5. returned vectors ---- *)
+
+Theorem C03_returned_wf : forall k o vs,
+  WF (kvec k) (kdeg k) -> snd (kstep k o) = Ok vs ->
+  Forall (fun vd : list Q * nat => WF (fst vd) (snd vd)) vs.
+Proof. exact returned_wf. Qed.
+Print Assumptions C03_returned_wf.
+
+(* ---- 6. queries ---- *)
+
+Theorem C03_span_sound : forall k u s,
+  kspan k u = Ok s -> span_ok (kvec k) (kdeg k) u s = true.
+Proof. exact kspan_sound. Qed.
+Print Assumptions C03_span_sound.
+
+Theorem C03_span_total : forall k u,
+  WF (kvec k) (kdeg k) -> kvalid1 k u = true -> exists s, kspan k u = Ok s.
+Proof. exact kspan_complete. Qed.
+Print Assumptions C03_span_total.
+
+Theorem C03_span_unique : forall k u s t,
+  WF (kvec k) (kdeg k) ->
+  nthq (kvec k) s <= u < nthq (kvec k) (S s) ->
+  nthq (kvec k) t <= u < nthq (kvec k) (S t) -> s = t.
+Proof. exact kspan_unique_wf. Qed.
+Print Assumptions C03_span_unique.
+
+Theorem C03_span_outside : forall k u, kvalid1 k u = false -> kspan k u = Err ValueError.
+Proof. exact kspan_outside. Qed.
+Print Assumptions C03_span_outside.
+
+Theorem C03_valid_iff : forall k u,
+  kvalid1 k u = true <->
+  (umin_of (kvec k) (kdeg k) <= u /\ u <= umax_of (kvec k) (kdeg k)).
+Proof. exact valid_iff. Qed.
+Print Assumptions C03_valid_iff.
+
+Theorem C03_mult_outside : forall k u, kvalid1 k u = false -> kmult k u = Err ValueError.
+Proof. exact mult_outside. Qed.
+Print Assumptions C03_mult_outside.
+
+Theorem C03_mult_ge : forall v u, (count_q u v <= kmult_raw v u)%nat.
+Proof. exact mult_ge. Qed.
+Print Assumptions C03_mult_ge.
+
+Theorem C03_mult_partial : forall v u,
+  (forall x, In x v -> x == u \/ tol_mult <= Qabs (u - x)) ->
+  kmult_raw v u = count_q u v.
+Proof. exact mult_partial. Qed.
+Print Assumptions C03_mult_partial.
+
+(* known finding: knot identity is tolerance based *)
+Theorem C03_mult_refuted : exists v u, WF v 0 /\ kmult_raw v u <> count_q u v.
+Proof. exact mult_refuted. Qed.
+Print Assumptions C03_mult_refuted.
+
+(* ---- 7. rejections ---- *)
+
+Theorem C03_rejects_unsorted : forall v deg,
+  sorted_b v = false -> make v deg = Err ValueError.
+Proof. exact rejects_unsorted. Qed.
+Print Assumptions C03_rejects_unsorted.
+
+Theorem C03_rejects_short : forall v deg,
+  (length v < 2)%nat -> make v deg = Err ValueError.
+Proof. exact rejects_short. Qed.
+Print Assumptions C03_rejects_short.
+
+Theorem C03_insert_outside : forall k nodes,
+  kvalid k nodes = false -> kinsert k nodes = Err ValueError.
+Proof. exact insert_outside. Qed.
+Print Assumptions C03_insert_outside.
+
+Theorem C03_remove_absent : forall k nodes,
+  remove_all nodes (kvec k) = None -> kremove k nodes = Err ValueError.
+Proof. exact remove_absent. Qed.
+Print Assumptions C03_remove_absent.
+
+Theorem C03_scale_nonpositive : forall k s, s <= 0 -> kscale k s = Err AssertionError.
+Proof. exact scale_nonpositive. Qed.
+Print Assumptions C03_scale_nonpositive.
+
+Theorem C03_divide_zero : forall k s,
+  s == 0 -> kstep k (ODivide s) = (k, Err ZeroDivisionError).
+Proof. exact divide_zero. Qed.
+Print Assumptions C03_divide_zero.
+
+Theorem C03_insert_remove_error_class : forall k ns e,
+  (snd (kstep k (OInsert ns)) = Err e \/ snd (kstep k (ORemove ns)) = Err e) ->
+  e = ValueError.
+Proof. exact insert_remove_error_class. Qed.
+Print Assumptions C03_insert_remove_error_class.
+
+Theorem C03_excess_multiplicity : forall v deg x,
+  In x v ->
+  (match deg with Some d => d | None => infer_deg v end + 1 < count_q x v)%nat ->
+  make v deg = Err ValueError.
+Proof. exact excess_multiplicity. Qed.
+Print Assumptions C03_excess_multiplicity.
+
+(* ---- 8. non-vacuity: the hypotheses are satisfiable on a non-trivial vector ---- *)
+(* repeated interior knot, a negative and a zero knot, a non-integer knot, degree 2 *)
+
+Example C03_ex_make :
+  exists k, make [-1; -1; -1; 0; 0; 1#3; 1; 1; 1] None = Ok k /\ kdeg k = 2%nat.
+Proof. eexists; split; vm_compute; reflexivity. Qed.
+
+Example C03_ex_wf : WF [-1; -1; -1; 0; 0; 1#3; 1; 1; 1] 2.
+Proof. vm_compute. reflexivity. Qed.
+
+(* a history of four operations, the second one failing (5 is outside [-1, 1]):
+   the failing step reports ValueError and leaves the state as it was *)
+Example C03_ex_history :
+  let k0 := mkkv [-1; -1; -1; 0; 0; 1#3; 1; 1; 1] 2 in
+  let k1 := fst (kstep k0 (OInsert [1#2])) in
+  view k1 = ([-1; -1; -1; 0; 0; 1#3; 1#2; 1; 1; 1], 2%nat)
+  /\ kstep k1 (OInsert [5]) = (k1, Err ValueError)
+  /\ view (fold_left (fun s o => fst (kstep s o))
+             [OInsert [1#2]; OInsert [5]; ORemove [0]; OShift 1] k0)
+     = ([0; 0; 0; 1; 4#3; 3#2; 2; 2; 2], 2%nat).
+Proof. vm_compute. repeat split. Qed.
+
+(* returned vectors: a split at the double knot gives two clamped vectors *)
+Example C03_ex_split :
+  snd (kstep (mkkv [-1; -1; -1; 0; 0; 1#3; 1; 1; 1] 2) (OSplit [0]))
+  = Ok [([-1; -1; -1; 0; 0; 0], 2%nat); ([0; 0; 0; 1#3; 1; 1; 1], 2%nat)].
+Proof. vm_compute. reflexivity. Qed.
+
+(* queries on the example: in range, span found, outside rejected *)
+Example C03_ex_queries :
+  let k0 := mkkv [-1; -1; -1; 0; 0; 1#3; 1; 1; 1] 2 in
+  kvalid1 k0 (1#6) = true /\ kspan k0 (1#6) = Ok 4%nat /\ kspan k0 1 = Ok 5%nat
+  /\ kvalid1 k0 (-2) = false /\ kmult k0 0 = Ok 2%nat /\ kmult k0 (-2) = Err ValueError.
+Proof. vm_compute. repeat split. Qed.
+
+(* the separation hypothesis of C03_mult_partial holds at u = 0 on the example *)
+Example C03_ex_separated :
+  forall x, In x [-1; -1; -1; 0; 0; 1#3; 1; 1; 1] -> x == 0 \/ tol_mult <= Qabs (0 - x).
+Proof.
+  intros x H. cbn [In] in H.
+  repeat (destruct H as [<-|H];
+          [first [left; reflexivity | right; apply Qleb_le; vm_compute; reflexivity]|]).
+  contradiction.
+Qed.
+
+(* the guards of the rejection theorems are reachable *)
+Example C03_ex_guards :
+  let k0 := mkkv [-1; -1; -1; 0; 0; 1#3; 1; 1; 1] 2 in
+  let w := [-1; -1; 0; 0; 0; 0; 1; 1] in
+  sorted_b [0; 1; 1#2; 1] = false
+  /\ kvalid k0 [5] = false
+  /\ remove_all [1#2] (kvec k0) = None
+  /\ all_some [Some 0; None; Some 1] = None
+  /\ In 0 w /\ (infer_deg w + 1 < count_q 0%Q w)%nat.
+Proof.
+  cbv zeta. repeat split; try (vm_compute; reflexivity).
+  - cbn [In]. right. right. left. reflexivity.
+  - vm_compute. repeat constructor.
+Qed.
